@@ -737,7 +737,7 @@ pub fn cmd_check(args: &Args) -> i32 {
     if violations > 0 {
         return 1;
     }
-    if n_runs == 0 && known_printed.is_empty() {
+    if n_runs == 0 && known_printed.is_empty() && pool.crashes.is_empty() {
         eprintln!("HARNESS: no run was executed");
         return 2;
     }
